@@ -10211,8 +10211,9 @@ static int
 tsk_matvec_calculator_run(tsk_matvec_calculator_t *self)
 {
     int ret = 0;
-    tsk_size_t j, k, m;
+    tsk_size_t i, j, k, m;
     tsk_id_t e, p, c;
+    double span;
     const tsk_size_t out_size = self->num_weights * self->num_focal_nodes;
     const tsk_size_t num_edges = self->ts->tables->edges.num_rows;
     const double *restrict edge_right = self->ts->tables->edges.right;
@@ -10273,6 +10274,12 @@ tsk_matvec_calculator_run(tsk_matvec_calculator_t *self)
         if (self->position == windows[m + 1]) {
             out = GET_2D_ROW(self->result, out_size, m);
             tsk_matvec_calculator_write_output(self, out);
+            if (self->options & TSK_STAT_SPAN_NORMALISE) {
+                span = windows[m + 1] - windows[m];
+                for (i = 0; i < out_size; i++) {
+                    out[i] /= span;
+                }
+            }
             m += 1;
         }
         if (self->options & TSK_DEBUG) {
